@@ -25,6 +25,7 @@ pub fn def() -> PropDef {
         flavours: &["tokio"],
         outcome: None,
         extra_profiles: &[],
+        adapt: None,
     }
 }
 
